@@ -105,6 +105,14 @@ func setup() {
 	damaged = append(damaged, pd)
 	jd, _ := build.JPEG{Segs: []build.Seg{build.ICCSeg(1, 3, []byte("abc")), {Marker: 0xC0, Data: build.SOF(8, 7, 9, [][3]byte{{1, 0x11, 0}})}}, SOS: []byte{1, 1, 0, 0, 63, 0}}.Bytes()
 	damaged = append(damaged, jd, []byte("RIFF\x10\x00\x00\x00WEBPVP8X\x0a\x00"), []byte{0xFF, 0xD8, 0xFF})
+	// JPEGs whose frame header is of a kind the loader does not support (extended, lossless, arithmetic ...), and
+	// other ways of being turned away late
+	for _, m := range []byte{0xC1, 0xC3, 0xC5, 0xC6, 0xC7, 0xC9, 0xCA, 0xCB, 0xCD, 0xCE, 0xCF, 0xCC, 0xDC, 0x01} {
+		bad, _ := build.JPEG{Segs: []build.Seg{{Marker: 0xE0, Data: []byte("JFIF\x00\x01\x01\x00\x00\x01\x00\x01\x00\x00")}, {Marker: m, Data: build.SOF(8, 7, 9, [][3]byte{{1, 0x11, 0}})}}, SOS: []byte{1, 1, 0, 0, 63, 0}}.Bytes()
+		damaged = append(damaged, bad)
+	}
+	bp, _ := build.PNG{W: 3, H: 3, Depth: 8, ColorType: 2, Pre: []build.Chunk{build.RawICCPChunk("toolong-name-without-terminator-................................................................", []byte{1})}, IDAT: []byte{1}}.Bytes()
+	damaged = append(damaged, bp, []byte("\x89PNG\r\n\x1a\n\x00\x00\x00\x0dIHDX"), []byte("RIFF\x04\x00\x00\x00WEBX"))
 }
 
 func space(i int) *sp.API { return &sp.Spaces[i%len(sp.Spaces)] }
@@ -261,6 +269,18 @@ func run(op trial.Op) uint64 {
 		}
 		d, derr := p.Description()
 		return digest(fmt.Sprintf("%+v", p.Header), d, derr)
+	case "LoadBad":
+		// a file that some loader rejects: the error (its text included) is part of what a call returns
+		d := damaged[a%len(damaged)]
+		target := []string{"jpeg", "png", "webp", "auto"}[(a/len(damaged))%4]
+		o := ld.Run(target, bytes.NewReader(d))
+		rest := 0
+		if o.Stream != nil {
+			var buf bytes.Buffer
+			buf.ReadFrom(o.Stream)
+			rest = int(digest(buf.Bytes()))
+		}
+		return digest(o.OK, o.Err, o.Format, o.W, o.H, o.ICC, o.ICCErr, rest)
 	case "Adapt":
 		ad := ciexyz.AdaptBetweenXYYWhitePoints(ciexyy.D50, ciexyy.Color{X: 0.3 + float32(a%100)/1000, Y: 0.33, YY: 1})
 		return digest(ad.Apply(ciexyz.Color{X: 0.2, Y: 0.5, Z: 0.7}), ciexyz.Color{X: float32(a%97) / 97, Y: 0.4, Z: 0.9}.ToLAB(ciexyz.D65))
